@@ -80,10 +80,7 @@ Theorem C14_summary_is_one_token : forall (s : str) (rest : str),
   | None => None
   | Some (ts, st) => Some (TId (lower s) :: TLP :: ts, st)
   end.
-Proof.
-  intros s rest H. destruct (is_identifier_shape s H) as [Hs Hk].
-  exact (lex_run_ident_lp s rest Hs Hk).
-Qed.
+Proof. exact summary_is_one_token. Qed.
 Print Assumptions C14_summary_is_one_token.
 
 (* PRINT: the entries handed to the printer are, in table order, exactly those on which
